@@ -1942,10 +1942,10 @@ class Qube(object):
                 if isinstance(value, Qube):
                     self._cache_[key] = value.as_readonly(recursive)
 
-        # Update the derivatives
-        if recursive:
-            for key in self._derivs_:
-                self._derivs_[key].as_readonly()
+        # Update the derivatives. A read-only object never carries writable
+        # derivatives, so this is done whether or not recursive is True.
+        for key in self._derivs_:
+            self._derivs_[key].as_readonly()
 
         return self
 
